@@ -10,6 +10,8 @@ pub mod c07;
 pub mod c10;
 pub mod c11;
 pub mod c12;
+pub mod c13;
+pub mod c14;
 pub mod c15;
 pub mod c16;
 pub mod c19;
@@ -25,6 +27,7 @@ pub fn run(a: &Args) -> Report {
         "c07" => c07::run(a),
         "c04" => c04::run(a),
         "c05" => c05::run(a),
+        "c05nest" => c05::nest_probe(a),
         "c03" => c03::run(a),
         "c02" => c02::run(a),
         "c01" => c01::run(a),
@@ -32,6 +35,8 @@ pub fn run(a: &Args) -> Report {
         "c12" => c12::run(a),
         "c16" => c16::run(a),
         "c15" => c15::run(a),
+        "c14" => c14::run(a),
+        "c13" => c13::run(a),
         other => {
             let mut r = Report::new(other);
             r.inconclusive(&format!("unknown property {other}"));
